@@ -99,6 +99,13 @@ CLAIMED = {
         "Trusts HiGHS; the scales are asserted to the accuracy implied by the solver's objective tolerance (sqrt(tol)/w).",
         "DESIGN.md section 6 C10",
     ),
+    "C13": (
+        "Hypothesis property-based testing: facet inequalities of an independently computed hull + reproducibility LPs for membership, exact repetition for seeds, seeded statistical tests (exact volume fraction of random half-spaces vs sample counts, centroid z-test) for uniformity",
+        "Generated clouds in 2-4 D (interior points, nearly collinear triples, stretch up to 1e3), all engines, n up to 1000 (20000 for uniformity), estimator systems with and without l1; "
+        "every sample checked for membership; uniformity decided with |z|<=6.5 per test (false alarm ~1e-10).",
+        "Distributional claims are decided statistically: gross non-uniformity (wrong weights, wrong Dirichlet) is detected, a 1 % bias is not.",
+        "DESIGN.md section 6 C13",
+    ),
 }
 
 PENDING_REASON = "check not built yet in this revision (planned, see DESIGN.md section 6); not claimed until its check runs quietly on the unchanged tree"
